@@ -29,7 +29,7 @@ ASSUMPTIONS = [
 
 @st.composite
 def _case(draw, tier):
-    nmax = 5 if tier == "quick" else 7
+    nmax = draw(st.sampled_from([5, 5, 5, 5, 5, 6, 7])) if tier == "quick" else 7
     sz = dict(max_spikes=8 if tier == "quick" else 20)
     g = draw(gen.int_train_lists(2, nmax, related=draw(st.sampled_from([False, True])), **sz))
     c = gen.to_times(g)
@@ -69,7 +69,7 @@ def _enum(tier, shard, nshards):
 
 
 PHASES = [
-    HypPhase("dyadic", _case, dict(quick=4000, thorough=60000)),
+    HypPhase("dyadic", _case, dict(quick=7000, thorough=60000)),
     EnumPhase("grid5_intervals", _enum,
               lambda tier: "all unordered pairs of subsets of {0..5} on [0,5] x measure in "
                            "{ISI,SPIKE,SYNC} x every interval [a/2,b/2], 0<=a<b<=10, and None"),
